@@ -556,3 +556,97 @@ def eval_visits(P, T, fname, mode):
             if r[1] != want:
                 bad = bad or '%s: the result is not the xor of the element hashes' % M.label
     return bad, unsup, ncase
+
+
+def eval_map_assign(P, T):
+    """assign(map, obj) of Tree / Table evaluated (cint) for sources that yield 0..2 keys, with and without their own key/value types:
+    the previous bindings are cleared first — while the size fields still describe the old layout —, the key and value types and sizes
+    are taken over from the source (Ref when it declares none) also when the source is empty, and every key the source yields is
+    inserted with the source's value for it, in order.  -> (mismatch, unsupported, cases)"""
+    fn = P.fn(P.slot(T, 'Assign', 'assign'))
+    clear_name = '%s_Clear' % T
+    insert_names = ('Tree_Set',) if T == 'Tree' else ('Table_Set_Move', 'Table_Set')
+    OBJ = 7777000
+    REF, KT, VT = 8700, 8600, 8601
+    SIZES = {REF: 8, KT: 24, VT: 40, 8500: 8, 8501: 16}
+    bad, unsup, ncase = None, None, 0
+    for m in (0, 1, 2):
+        for has_types in (1, 0):
+            atoms = {('global', 'NULL'): 0, ('global', 'Terminal'): TERM, ('global', 'Ref'): REF,
+                     ('elem', 'iterinst', 0, 'iter_init'): 8801, ('elem', 'iterinst', 0, 'iter_next'): 8802}
+            for f, v in (('ktype', 8500), ('vtype', 8501), ('ksize', 8), ('vsize', 16), ('nitems', 3), ('root', 123456), ('nslots', 5), ('data', 600000),
+                         ('sspace0', 610000), ('sspace1', 620000)):
+                atoms[('elem', 'self', 0, f)] = v
+            ev_ = []
+
+            def call(nm, e, it, m=m, has_types=has_types):
+                if nm == clear_name:
+                    a_ = it.atoms
+                    ev_.append(('clear', a_[('elem', 'self', 0, 'ktype')], a_[('elem', 'self', 0, 'vtype')], a_[('elem', 'self', 0, 'ksize')], a_[('elem', 'self', 0, 'vsize')]))
+                    a_[('elem', 'self', 0, 'nitems')] = 0
+                    a_[('elem', 'self', 0, 'root')] = 0
+                    if T == 'Table':
+                        a_[('elem', 'self', 0, 'nslots')] = 0
+                        a_[('elem', 'self', 0, 'data')] = 0
+                    return 0
+                if nm in ('implements_method_at_offset', 'type_implements_method_at_offset', 'implements'):
+                    return has_types
+                if nm == 'key_type':
+                    return KT
+                if nm == 'val_type':
+                    return VT
+                if nm == 'size':
+                    return SIZES.get(it.ev(e[2][0]), 8)
+                if nm == 'len':
+                    return m
+                if nm == 'Table_Ideal_Size':
+                    return 5 if it.ev(e[2][0]) > 0 else 0
+                if nm in ('calloc', 'malloc'):
+                    return 900000
+                if nm == 'realloc':
+                    return it.ev(e[2][0]) or 910000
+                if nm == 'memset':
+                    return it.ev(e[2][0])
+                if nm == 'method_at_offset':
+                    return ('ep', 'iterinst', 0)
+                if nm is None:
+                    f_ = it.ev(e[1])
+                    if f_ == 8801:
+                        return 7001 if m >= 1 else TERM
+                    if f_ == 8802:
+                        c_ = it.ev(e[2][1])
+                        return c_ + 1 if c_ - 7000 < m else TERM
+                    raise cint.NoEval('indirect call')
+                if nm == 'get' and it.ev(e[2][0]) == OBJ:
+                    return 1100 + it.ev(e[2][1])
+                if nm in insert_names:
+                    ev_.append(('insert', it.ev(e[2][1]), it.ev(e[2][2])))
+                    return 0
+                raise cint.NoEval('call %s' % nm)
+            it = cint.CInt(P, fn, atoms=atoms, call=call, recurse=True, strict=True, max_steps=4000)
+            it.atoms = atoms
+            r = it.run([SELF, OBJ])
+            ncase += 1
+            label = 'source yielding %d key(s)%s' % (m, '' if has_types else ' and declaring no key/value types')
+            if r[0] == 'stuck':
+                unsup = unsup or '%s: %s at %s' % (label, r[1], P.cfg(fn).describe(r[2]))
+                continue
+            if r[0] != 'ret':
+                bad = bad or '%s: does not return (%s)' % (label, r[1])
+                continue
+            wk, wv = (KT, VT) if has_types else (REF, REF)
+            msg = None
+            clears = [x for x in ev_ if x[0] == 'clear']
+            if len(clears) != 1 or ev_[0][0] != 'clear':
+                msg = 'the previous bindings are not cleared exactly once, first (%s)' % [x[0] for x in ev_]
+            elif clears[0][1:] != (8500, 8501, 8, 16):
+                msg = 'the old entries are cleared after the type and size fields were overwritten (they are walked with sizes %s/%s)' % (clears[0][3], clears[0][4])
+            elif (atoms[('elem', 'self', 0, 'ktype')], atoms[('elem', 'self', 0, 'vtype')]) != (wk, wv):
+                msg = 'afterwards the key/value types are %s/%s; the source\'s are %s/%s' % (atoms[('elem', 'self', 0, 'ktype')], atoms[('elem', 'self', 0, 'vtype')], wk, wv)
+            elif atoms[('elem', 'self', 0, 'ksize')] < SIZES[wk] or atoms[('elem', 'self', 0, 'vsize')] < SIZES[wv]:
+                msg = 'afterwards the key/value sizes are %s/%s; the types need %d/%d' % (atoms[('elem', 'self', 0, 'ksize')], atoms[('elem', 'self', 0, 'vsize')], SIZES[wk], SIZES[wv])
+            elif [x for x in ev_ if x[0] == 'insert'] != [('insert', 7001 + k, 1100 + 7001 + k) for k in range(m)]:
+                msg = 'inserts %s; the source yields keys %s with values get(obj, key)' % ([x[1:] for x in ev_ if x[0] == 'insert'], [7001 + k for k in range(m)])
+            if msg:
+                bad = bad or '%s: %s' % (label, msg)
+    return bad, unsup, ncase
